@@ -1,5 +1,6 @@
 from __future__ import annotations
 
+from copy import copy
 from typing import Optional
 
 from excel2pycl.src.cell import Cell
@@ -101,7 +102,9 @@ class Parser:
         context._sheets_size = excel.get_sheets_size()
 
         if self._entrypoint_cell:
-            CellTranslator.translate(self._entrypoint_cell, excel, context)
+            # translation rewrites the cell it starts from (identifiers, value, even the column for
+            # COLUMN(range)), so work on a copy and keep the entry point as the caller gave it
+            CellTranslator.translate(copy(self._entrypoint_cell), excel, context)
         else:
             CellTranslator.translate_file(excel, context)
 
